@@ -299,3 +299,74 @@ def inline_new_helpers(prog, fi, depth=2):
     node = copy.copy(fi.node)
     node.body = rewrite(list(fi.node.body), fi, depth)
     return node
+
+
+def new_helper_scope(prog, fi, depth=2):
+    """`fi` and the functions newer than the rules that it calls (module functions by name, methods through self /
+    cls), transitively to `depth`: the code an anchored function was split into by a refactoring."""
+    out, todo = [], [(fi, 0)]
+    while todo:
+        g, d = todo.pop(0)
+        if any(g is x for x in out):
+            continue
+        out.append(g)
+        if d >= depth:
+            continue
+        for c in ast.walk(g.node):
+            if not isinstance(c, ast.Call):
+                continue
+            h = None
+            if isinstance(c.func, ast.Name):
+                h = prog.resolve_function(c.func.id, g.module)
+            elif isinstance(c.func, ast.Attribute) and isinstance(c.func.value, ast.Name) and c.func.value.id in ("self", "cls") and g.cls is not None:
+                h = prog.method(g.cls, c.func.attr)
+            if h is not None and prog.is_new_function(h):
+                todo.append((h, d + 1))
+    return out
+
+
+def cli_forwards(command_node, flag, callee_name, callee_params, param):
+    """Does the click command `command_node` hand the value of its option `flag` to parameter `param` of the one call
+    of `callee_name` in its body?  Either the command collects **kwargs and passes **kwargs on (click names the value
+    after the option, so names must agree), or it names the option's variable explicitly at the parameter's position /
+    as that keyword.  Returns (ok, why)."""
+    var = None
+    for d in command_node.decorator_list:
+        if isinstance(d, ast.Call) and call_name(d).split(".")[-1] in ("option", "argument"):
+            strs = [a.value for a in d.args if isinstance(a, ast.Constant) and isinstance(a.value, str)]
+            if flag in strs:
+                plain = [x for x in strs if not x.startswith("-")]
+                longs = [x for x in strs if x.startswith("--")]
+                var = plain[0] if plain else (longs[0][2:].replace("-", "_") if longs else None)
+    if var is None:
+        return False, "the command has no option %s" % flag
+    cs = [c for c in ast.walk(command_node) if isinstance(c, ast.Call) and call_name(c).split(".")[-1] == callee_name]
+    if len(cs) != 1:
+        return False, "the command calls %s %d times" % (callee_name, len(cs))
+    c = cs[0]
+    a = command_node.args
+    if a.kwarg is not None and any(k.arg is None and isinstance(k.value, ast.Name) and k.value.id == a.kwarg.arg for k in c.keywords):
+        if var != param:
+            return False, "click passes the value as %r but %s takes %r" % (var, callee_name, param)
+        rebound = [n for n in ast.walk(command_node) if isinstance(n, (ast.Subscript,)) and isinstance(n.value, ast.Name) and n.value.id == a.kwarg.arg and isinstance(n.ctx, (ast.Store, ast.Del))]
+        popped = [n for n in ast.walk(command_node) if isinstance(n, ast.Call) and isinstance(n.func, ast.Attribute) and n.func.attr in ("pop", "clear", "update", "setdefault") and isinstance(n.func.value, ast.Name) and n.func.value.id == a.kwarg.arg]
+        if rebound or popped:
+            return False, "the keyword dictionary is edited before it is forwarded"
+        return True, ""
+    names = [x.arg for x in a.posonlyargs + a.args + a.kwonlyargs]
+    if var not in names:
+        return False, "the command does not receive %r" % var
+    stores = [n for n in ast.walk(command_node) if isinstance(n, ast.Name) and n.id == var and isinstance(n.ctx, ast.Store)]
+    if stores:
+        return False, "%r is rebound before the call" % var
+    if any(isinstance(x, ast.Starred) for x in c.args):
+        return False, "star-arguments"
+    if param in callee_params:
+        i = callee_params.index(param)
+        if i < len(c.args):
+            v = c.args[i]
+            return (isinstance(v, ast.Name) and v.id == var), "position %d of the call is %s" % (i, ast.unparse(v))
+    for k in c.keywords:
+        if k.arg == param:
+            return (isinstance(k.value, ast.Name) and k.value.id == var), "%s=%s" % (param, ast.unparse(k.value))
+    return False, "the call does not pass %s: %s falls back to its default whatever the command line says" % (param, callee_name)
